@@ -105,3 +105,17 @@ Theorem C10_option_process_matches_source :
     = w_add w (render_entry (EOption name doc value help)).
 Proof. exact option_process_matches_source. Qed.
 Print Assumptions C10_option_process_matches_source.
+
+Theorem C10_process_set_matches_source :
+  forall c doc docd st,
+    result_docs (process_set c doc docd st)
+    = Some (PySource.DocumentationAggregator_process_set c doc (documented st)).
+Proof. exact process_set_matches_source. Qed.
+Print Assumptions C10_process_set_matches_source.
+
+Theorem C10_process_option_matches_source :
+  forall c doc docd st,
+    documented (process_option c doc docd st)
+    = PySource.DocumentationAggregator_process_option c doc (documented st).
+Proof. exact process_option_matches_source. Qed.
+Print Assumptions C10_process_option_matches_source.
